@@ -124,3 +124,93 @@ Print Assumptions C06_array_eq_mapping.
 Print Assumptions C06_train_step.
 Print Assumptions C06_train_is_loop.
 Print Assumptions C06_learn_every_mapping_prefix_refuted.
+
+(* ================================================================================================================ *)
+(* Offline fit of models WITH feedback connections, and the ESN node (model/FitFb.v: the forward nodes of every stage are
+   executed step by step by ModelSem.forward; proxies / clamps range over the complete model).                        *)
+From Coq Require Import QArith.
+From RV Require Import base.Num base.LA model.ModelSem model.Kinds model.Ridge model.FitFb proofs.FitFb_proofs.
+Local Close Scope Q_scope.
+
+Section C06_fit_fb.
+Context {F : Type} `{Num F}.
+Notation vec := (list F).
+Notation mat := (list (list F)).
+
+(* force_teachers=True.  At step t of sequence j, in whatever stage of Model.fit and whatever has been fitted or run
+   before (any environment e), a receiver d whose sender s has targets is handed shift(Y_s[j])[t]: zeros at t = 0,
+   the sender's TARGET of step t-1 afterwards. *)
+Theorem C06_fit_fb_forced_value (fm : @fmodel F) Y j t (e : @env F) (d : @ndesc F) s rows dflt :
+  NoDup (map nid (fm_nodes fm)) -> In d (fm_nodes fm) -> nfb d = Some (FbNode s) ->
+  seq_rows Y j (nid d) = None -> seq_rows Y j s = Some rows -> t < length rows ->
+  fit_fb_seen fm (forced_at true Y j t) e d = Some (nth t (shifted rows) dflt)
+  /\ (rows <> [] -> nth 0 (shifted rows) dflt = vzeros (length (hd [] rows)))
+  /\ (forall t', S t' < length rows -> nth (S t') (shifted rows) dflt = nth t' rows dflt).
+Proof.
+  intros Hnd Hin Hfb Hd Hs Ht. split; [exact (fit_forced_value fm Y j t e d s rows dflt Hnd Hin Hfb Hd Hs Ht)|].
+  split; [exact (shifted_0 rows dflt)|intros t'; exact (shifted_S rows t' dflt)].
+Qed.
+
+(* force_teachers=False: the sender's own state at the end of the previous step (zeros for a readout that has not been
+   fitted and run yet; its real prediction once it runs as a forward node of a later stage) *)
+Theorem C06_fit_fb_unforced_value (fm : @fmodel F) Y j t (e : @env F) (d : @ndesc F) s :
+  nfb d = Some (FbNode s) -> fit_fb_seen fm (forced_at false Y j t) e d = Some (st (e s)).
+Proof. exact (fit_unforced_value fm Y j t e d s). Qed.
+
+(* ESN.fit: the reservoir of the per-sequence copy is handed the same shifted targets (through the readout's state proxy) *)
+Theorem C06_fit_fb_esn_forced_value (dres drd : @ndesc F) Y j t (e : @env F) rows dflt :
+  nfb dres = Some (FbNode (nid drd)) -> nfb drd = None -> nid dres <> nid drd ->
+  seq_rows Y j (nid drd) = Some rows -> t < length rows ->
+  esn_fb_seen dres drd (forced_at true Y j t) e = Some (nth t (shifted rows) dflt).
+Proof. exact (esn_forced_value dres drd Y j t e rows dflt). Qed.
+
+(* ESN.fit(X, Y, warmup) gives the readout exactly the parameters of Model.fit(X, Y, warmup, force_teachers=True,
+   reset=True) on reservoir(0) >> readout(1), with reservoir <<= readout or without feedback, for ANY reservoir forward
+   function that keeps no hidden memory, any solver, any data (each sequence having a target for each of its steps), and
+   whatever states the nodes hold when fit is called.  (With reset=False Model.fit carries the reservoir state from one
+   sequence to the next while ESN.fit restarts each sequence from the null state: the condition is exact.) *)
+Theorem C06_fit_fb_esn_eq_model (solve : mat -> mat -> mat) fres frd (has_fb : bool) ores ord rbias rlam rdout
+        (xs ys : list (list vec)) (lens : list nat) :
+  (forall s h x fb s' h', fres s h x fb = Some (s', h') -> h' = h) ->
+  (forall j T, nth_error lens j = Some T -> exists rows, nth_error ys j = Some rows /\ T <= length rows) ->
+  forall w (e : @env F),
+    fit_fb_params (fit_fb solve (e_fm fres frd has_fb ores ord rbias rlam rdout) e_stg [(0, xs)] [(1, ys)] w true true lens e)
+    = option_map (fun p => [(1, fst p)])
+                 (esn_fit solve (e_res fres has_fb ores) (e_rdn frd ord) (e_rd rbias rlam rdout) [(0, xs)] [(1, ys)] w lens e).
+Proof. intros Hh Hl. exact (esn_fit_eq_model_fit solve fres frd has_fb ores ord rbias rlam rdout Hh xs ys lens Hl). Qed.
+End C06_fit_fb.
+
+(* non-vacuity at Q: receiver 0 = x + feedback, fed back by its ridge readout 1; two sequences *)
+Definition exF_solve (A B : list (list Q)) : list (list Q) := match qsolve A B with Some X => X | None => [] end.
+Definition exF_fres := kfwd (F:=Q) (KFbAdd 1%Q).
+Definition exF_frd : list Q -> @hidden Q -> list Q -> option (list Q) -> option (list Q * @hidden Q) := fun _ _ _ _ => None.
+Definition exF_xs : list (list (list Q)) := [[[1]; [2]; [4]]; [[3]; [5]]]%Q.
+Definition exF_ys : list (list (list Q)) := [[[10]; [20]; [30]]; [[40]; [50]]]%Q.
+Definition exF_e0 : @env Q := fun _ => mkNS [0%Q] [].
+Example C06_fit_fb_example :
+  (* the receiver's states collected by Model.fit: x_t + target_{t-1}, zero first in EACH sequence *)
+  (match fit_fb exF_solve (e_fm exF_fres exF_frd true 1 1 true 1%Q 1) e_stg [(0, exF_xs)] [(1, exF_ys)] 0 true true [3; 2] exF_e0 with
+   | Some (_, _, _, _, log) => map (fun tr => lookup tr 0) log
+   | None => []
+   end) = [Some [[[1]; [12]; [24]]; [[3]; [45]]]]%Q
+  (* both fits succeed and agree *)
+  /\ (exists p x, esn_fit exF_solve (e_res exF_fres true 1) (e_rdn exF_frd 1) (e_rd true 1%Q 1) [(0, exF_xs)] [(1, exF_ys)] 0 [3; 2] exF_e0
+                  = Some (Some p, x) /\
+                  fit_fb_params (fit_fb exF_solve (e_fm exF_fres exF_frd true 1 1 true 1%Q 1) e_stg [(0, exF_xs)] [(1, exF_ys)] 0 true true [3; 2] exF_e0)
+                  = Some [(1, Some p)])
+  (* the hypotheses of C06_fit_fb_esn_eq_model hold for this reservoir and these data *)
+  /\ (forall s h x fb s' h', exF_fres s h x fb = Some (s', h') -> h' = h)
+  /\ (forall j T, nth_error [3; 2] j = Some T -> exists rows, nth_error exF_ys j = Some rows /\ T <= length rows).
+Proof.
+  split; [vm_compute; reflexivity|]. split; [do 2 eexists; split; vm_compute; reflexivity|]. split.
+  - intros s h x [y|] s' h'; cbn; intros E; inversion E; reflexivity.
+  - intros [|[|j]] T E; cbn in E.
+    + inversion E; subst. exists [[10]; [20]; [30]]%Q. split; [reflexivity|cbn; lia].
+    + inversion E; subst. exists [[40]; [50]]%Q. split; [reflexivity|cbn; lia].
+    + destruct j; discriminate.
+Qed.
+
+Print Assumptions C06_fit_fb_forced_value.
+Print Assumptions C06_fit_fb_unforced_value.
+Print Assumptions C06_fit_fb_esn_forced_value.
+Print Assumptions C06_fit_fb_esn_eq_model.
